@@ -83,3 +83,31 @@ pub async fn config_load(args: &[&str]) -> String {
     }
     "OK".into()
 }
+
+// udp_reader_error: a UDP session whose peer port is closed: one frame is written (answered by ICMP port unreachable),
+// then the session's frame reader is read once.  Reports what the reader yields for the failed receive.
+pub async fn udp_reader_error(_args: &[&str]) -> String {
+    use crate::common::frames::Frame;
+    let closed = {
+        let s = std::net::UdpSocket::bind("127.0.0.1:0").unwrap();
+        s.local_addr().unwrap()
+    }; // socket dropped: the port is closed again
+    let (_tx, rx) = tokio::sync::mpsc::channel(4);
+    let io = crate::common::udp::setup_udp_session("127.0.0.1:9".parse().unwrap(), "127.0.0.1:0".parse().unwrap(), closed, rx, false);
+    let (mut reader, mut writer) = match io {
+        Ok(x) => x,
+        Err(e) => return format!("ERR setup {}", e),
+    };
+    let mut f = Frame::new();
+    f.body = bytes::Bytes::from_static(b"probe");
+    if let Err(e) = writer.write(f).await {
+        return format!("ERR first write {}", e);
+    }
+    tokio::time::sleep(std::time::Duration::from_millis(200)).await;
+    match tokio::time::timeout(std::time::Duration::from_secs(2), reader.read()).await {
+        Err(_) => "OK reader=pending".into(),
+        Ok(Err(e)) => format!("OK reader=error kind={:?}", e.kind()),
+        Ok(Ok(None)) => "OK reader=end".into(),
+        Ok(Ok(Some(fr))) => format!("OK reader=frame len={}", fr.body().len()),
+    }
+}
